@@ -25,7 +25,7 @@ BINARY = ["EqualExpression", "AddExpression", "SubtractExpression", "MultiplyExp
           "PowerExpression"]
 UNARY = ["NegateExpression", "SgnExpression", "FactorialExpression"]
 FORMS = ["Var", "Const", "NegConst", "Add", "Subtract", "Multiply", "CompactMul", "CompactMulPow", "Divide", "Power",
-         "PowerConst", "Negate", "Factorial", "Sgn"]
+         "PowerConst", "PowerLit", "Negate", "Factorial", "Sgn"]
 
 _G: Dict[str, Any] = {}
 
@@ -78,6 +78,9 @@ class Builder:
             return self.mk("PowerExpression", self.var(), self.var())
         if f == "PowerConst":
             return self.mk("PowerExpression", self.var(), self.const())
+        if f == "PowerLit":
+            # a literal base: a minus sign written before it would join the literal
+            return self.mk("PowerExpression", self.const(), self.var())
         if f == "Negate":
             return self.mk("NegateExpression", self.var())
         if f == "Factorial":
@@ -94,6 +97,10 @@ class Builder:
         if f.startswith("Pow:"):
             # x^(exponent form)
             return self.mk("PowerExpression", self.var(), self.form(f.split(":", 1)[1]))
+        if f.startswith("Bin:"):
+            # a binary node over two arbitrary forms:  Bin:<Kind>/<left form>/<right form>
+            kind, l, r = f.split(":", 1)[1].split("/")
+            return self.mk(kind + "Expression", self.form(l), self.form(r))
         if f.startswith("Paren:"):
             # a sum / difference / product / quotient / power of two compound operands
             kind, inner = f.split(":", 1)[1].split("/")
@@ -204,11 +211,11 @@ def _worker(task):
         return {"parent": parent.replace("Expression", ""), "forms": list(forms), "outcome": "error", "note": str(e)}
 
 
-def analyse_printer(repo: str, use_cache: bool = True) -> List[dict]:
+def analyse_printer(repo: str, use_cache: bool = True, tier: str = "quick") -> List[dict]:
     import json
     from .report import VERIF
     prog, S = _setup(repo)
-    digest = source_digest(prog, extra="print" + _self_digest())
+    digest = source_digest(prog, extra="print" + tier + _self_digest())
     cache = VERIF / ".cache" / f"printcases-{digest}.json"
     if use_cache and cache.exists():
         try:
@@ -228,7 +235,9 @@ def analyse_printer(repo: str, use_cache: bool = True) -> List[dict]:
     # three levels: a negation / function of every form, and a binary node over a compound, as operand of each binary parent
     deep = [f"Negate:{f}" for f in FORMS if f != "Factorial"] + [f"Sgn:{f}" for f in ("Add", "Negate", "CompactMul")] + \
            [f"Paren:{k}/{i}" for k in ("Multiply", "Divide", "Power", "Subtract") for i in ("Add", "Negate", "CompactMul", "Power", "NegConst", "Const")] + \
-           [f"Negate:Paren:{k}/{i}" for k in ("Multiply", "Divide", "Power") for i in ("Add", "Negate", "Const")]
+           [f"Negate:Paren:{k}/{i}" for k in ("Multiply", "Divide", "Power") for i in ("Add", "Negate", "Const", "PowerLit", "Factorial",
+                                                                                       "CompactMul", "CompactMulPow")] + \
+           [f"Negate:Bin:Multiply/{i}/Multiply" for i in ("PowerLit", "Factorial", "Const")]
     exps = [f for f in FORMS if f not in ("Var", "Const")] + ["Paren:Power/Const", "Paren:Power/NegConst", "Negate:Multiply",
                                                               "Negate:Divide", "Negate:Power", "Paren:Multiply/Add", "Negate:Paren:Power/Const"]
     deep += [f"CMP:{e}" for e in exps] + [f"Pow:{e}" for e in exps if e.startswith(("Paren", "Negate:"))]
@@ -239,13 +248,27 @@ def analyse_printer(repo: str, use_cache: bool = True) -> List[dict]:
                 tasks.append((str(prog.repo), parent, (sib, d)))
     for d in deep:
         tasks.append((str(prog.repo), "NegateExpression", (d,)))
+    if tier == "thorough":
+        # systematic third level: every binary node over every pair of forms, plain and negated, as either operand of
+        # every binary parent (sibling a variable / a literal) and as the operand of a negation
+        inner = [f"Bin:{k}/{l}/{r}" for k in ("Add", "Subtract", "Multiply", "Divide", "Power") for l in FORMS for r in FORMS]
+        have = {t[1:] for t in tasks}
+        for parent in BINARY:
+            for d in inner:
+                for sib in ("Var", "Const"):
+                    for forms in ((d, sib), (sib, d)):
+                        if (parent, forms) not in have:
+                            tasks.append((str(prog.repo), parent, forms))
+        for d in inner:
+            tasks.append((str(prog.repo), "NegateExpression", (d,)))
+            tasks.append((str(prog.repo), "SgnExpression", (d,)))
     nproc = min(int(os.environ.get("VERIF_JOBS", "16")), os.cpu_count() or 1)
     ctx = mp.get_context("fork")
     with ctx.Pool(nproc) as pool:
         recs = pool.map(_worker, tasks, chunksize=8)
     try:
         cache.parent.mkdir(exist_ok=True)
-        if str(prog.repo) == "/repo":
+        if str(prog.repo) == "/repo" and tier == "quick":
             for old in cache.parent.glob("printcases-*.json"):
                 old.unlink()
         cache.write_text(json.dumps(recs))
